@@ -14,6 +14,8 @@
 //	a=modresp:<k>=<v>,...          response direction: ModifyResponseAction
 //	a=noop                         NoOpAction (default on both directions)
 //	t=set | t=get                  write / read back the transaction id in the transactional context
+//	yr=response|request|any        response direction: the stream type the processor reports in its
+//	                               ProcessorIO (GenerateResponse and ReadCache report "response" there)
 package processorverifprobe
 
 import (
@@ -70,6 +72,13 @@ func (p *probe) Execute(_ string, apiStream publictypes.APIStreamI) (streamtypes
 			out.Name = field[2:]
 		case strings.HasPrefix(field, "t="):
 			p.touchContext(field[2:], apiStream)
+		case strings.HasPrefix(field, "yr=") && !isReq:
+			switch field[3:] {
+			case "response":
+				out.Type = publictypes.StreamTypeResponse
+			case "request":
+				out.Type = publictypes.StreamTypeRequest
+			}
 		case strings.HasPrefix(field, "a="):
 			act := field[2:]
 			switch {
